@@ -661,6 +661,9 @@ class Renderer:
         if k == "fn" and not self.is_inline(n):
             return [pad + self.fn_head(n)] + self.block(n["body"], depth + 1)
         if k in ("map",):
+            # a braced map may stand by itself as a statement, e.g. as the only expression of a block
+            if self.L.rng is not None and self.L.pick(2, 0.5) == 0:
+                return [pad + self.expr(n)]
             return [pad + "(" + self.expr(n) + ")"]
         if k in ("neg",) or (k == "int" and n["v"] < 0) or (k == "flt" and n["n"] < 0):
             return [pad + "(" + self.expr(n) + ")"]
